@@ -83,12 +83,17 @@ func H_C01_FrostSignTaproot() {
 	}
 	msg := []byte("0123456789abcdef0123456789abcdef")
 	sh := map[party.ID]protocol.Handler{}
+	before := map[party.ID]curve.Scalar{}
 	for _, id := range signers {
+		before[id] = curve.Secp256k1{}.NewScalar().Set(cfgs[id].PrivateShare)
 		h, err := protocol.NewMultiHandler(SignTaproot(cfgs[id], signers, msg), []byte("sign"))
 		vsym.Assert(err == nil, "sign starts")
 		sh[id] = h
 	}
 	runAll(sh, signers)
+	for _, id := range signers {
+		vsym.Assert(cfgs[id].PrivateShare.Equal(before[id]), "signing leaves the party's secret share unchanged")
+	}
 	var first []byte
 	for _, id := range signers {
 		r, err := sh[id].Result()
